@@ -142,6 +142,7 @@ type thread struct {
 	lastPt string // last yield point passed (to classify createFn calls)
 	done   bool
 	flight bool // released into a blocking lock and not yet arrived
+	lost   bool // did not come back within the timeout and is not blocked in a lock
 	ret    string
 }
 
@@ -181,6 +182,7 @@ type run struct {
 	obs       []string
 	entryOrd  map[int][]string
 	quit      atomic.Bool
+	deadline  time.Time
 }
 
 var current *run
@@ -395,7 +397,7 @@ func isLockWait(state string) bool {
 	return strings.HasPrefix(state, "sync.Mutex.Lock") || strings.HasPrefix(state, "sync.RWMutex.Lock") || strings.HasPrefix(state, "sync.RWMutex.RLock") || strings.HasPrefix(state, "semacquire")
 }
 
-const arriveTimeout = 10 * time.Second
+const arriveTimeout = 3 * time.Second
 
 // waits for the next event of th. Returns (event, "") or (zero, state) when the goroutine is found blocked in a lock.
 func (r *run) await(th *thread, pending *[]event) (event, string) {
@@ -608,6 +610,18 @@ func (r *run) exec(tokens []string) string {
 				aborted = true
 				continue
 			}
+			if th.done || th.lost {
+				r.obs = append(r.obs, tok+">DONE")
+				aborted = true
+				r.drain(&pending)
+				continue
+			}
+			if mode == '!' && !th.flight {
+				r.obs = append(r.obs, tok+">NOTINFLIGHT")
+				aborted = true
+				r.drain(&pending)
+				continue
+			}
 			if mode != '!' {
 				if th.point == "" || th.flight {
 					r.obs = append(r.obs, tok+">NOTPARKED")
@@ -619,6 +633,14 @@ func (r *run) exec(tokens []string) string {
 				th.resume <- struct{}{}
 			}
 			ev, blocked := r.await(th, &pending)
+			if strings.HasPrefix(blocked, "TIMEOUT") {
+				// neither arrived nor blocked in a lock: the goroutine is lost for this schedule
+				th.lost = true
+				r.obs = append(r.obs, tok+">"+blocked)
+				aborted = true
+				r.drain(&pending)
+				continue
+			}
 			if blocked != "" {
 				th.flight = true
 				if mode == '?' {
@@ -649,7 +671,7 @@ func (r *run) exec(tokens []string) string {
 func (r *run) deadlockCheck(pending *[]event) string {
 	var stuck, free []string
 	for _, th := range r.order {
-		if th.done {
+		if th.done || th.lost {
 			continue
 		}
 		if th.flight {
@@ -729,8 +751,11 @@ func (r *run) harnessEnabled(th *thread) bool {
 func (r *run) drain(pending *[]event) {
 	for iter := 0; iter < 5000; iter++ {
 		moved := false
+		if time.Now().After(r.deadline) {
+			break
+		}
 		for _, th := range r.order {
-			if !th.flight {
+			if !th.flight || th.lost {
 				continue
 			}
 			for i, ev := range *pending {
@@ -743,22 +768,27 @@ func (r *run) drain(pending *[]event) {
 				}
 			}
 			if th.flight && !isLockWait(goroutineState(th.goid)) {
-				if ev, blocked := r.await(th, pending); blocked == "" {
+				ev, blocked := r.await(th, pending)
+				if blocked == "" {
 					th.flight, th.point = false, ev.point
 					r.onArrive(th, ev)
 					moved = true
+				} else if strings.HasPrefix(blocked, "TIMEOUT") {
+					th.lost = true
 				}
 			}
 		}
 		for _, th := range r.order {
-			if th.done || th.flight || !r.harnessEnabled(th) {
+			if th.done || th.flight || th.lost || !r.harnessEnabled(th) {
 				continue
 			}
 			r.onRelease(th)
 			th.point = ""
 			th.resume <- struct{}{}
 			ev, blocked := r.await(th, pending)
-			if blocked != "" {
+			if strings.HasPrefix(blocked, "TIMEOUT") {
+				th.lost = true
+			} else if blocked != "" {
 				th.flight = true
 			} else {
 				th.point = ev.point
@@ -775,16 +805,31 @@ func (r *run) drain(pending *[]event) {
 		return
 	}
 	var stuck []string
+	allBlocked := true
 	for _, th := range r.order {
-		if !th.done {
-			stuck = append(stuck, th.id+"@"+pointToPC(th.lastPt))
+		if th.done {
+			continue
+		}
+		stuck = append(stuck, th.id+"@"+pointToPC(th.lastPt))
+		switch {
+		case th.lost:
+			allBlocked = false
+		case th.flight:
+			if !isLockWait(goroutineState(th.goid)) {
+				allBlocked = false
+			}
+		case r.harnessEnabled(th):
+			allBlocked = false
 		}
 	}
 	sort.Strings(stuck)
-	if r.c.db {
+	if r.c.db && allBlocked && len(stuck) > 0 {
 		r.violate("deadlock", "no goroutine can advance: "+strings.Join(stuck, " "))
 	}
 }
+
+// a step that did not park where a step of the schedule was expected is not a deadlock by itself:
+// release() lets every goroutine run on at the end
 
 func (r *run) allDone() bool {
 	for _, th := range r.order {
@@ -877,6 +922,7 @@ func runSchedule(line string) (impl string, kinds []string, viol []string) {
 	currentMu.Lock()
 	current = r
 	currentMu.Unlock()
+	r.deadline = time.Now().Add(30 * time.Second)
 	r.start()
 	obs := r.exec(strings.Fields(parts[1]))
 	fin := r.final()
